@@ -117,7 +117,7 @@ def _run_case(ctx, case, rng):
     spec, fan = models.t_fanout(rng)
     ctx.count('fanout_models')
   else:
-    spec = models.model_for_case(rng, multi_sub_p=0.0, template_p=0.25, allow_emb=True)
+    spec = models.model_for_case(rng, multi_sub_p=0.0, template_p=0.25, allow_emb=True, alias_p=0.0)
   sig = spec.signatures[0]
   data = gdata.dataset(rng, sig, n=2)
   ok, _ = common.admit(spec, {sig['key']: data})
